@@ -476,6 +476,42 @@ func specswapComponent(g *G, n int, opts map[string]string) *Out {
 			w.goB = plainWalk(specB, w.State.core(), deepCopy(w.Msgs, nil).([]interface{}), &core.Control{Limit: w.Limit}, nil)
 			w.GoA, w.GoB = w.goA.W, w.goB.W
 		}
+		// the first installation: a Specter that holds no specification yet is read by processing calls while the first
+		// SetSpec arrives; once SetSpec has returned, every Spec() is that version
+		firstLost := false
+		for round := 0; round < 8 && !firstLost && ci < 12; round++ {
+			u0 := core.NewUpdatableSpec(nil)
+			if round%2 == 1 {
+				u0 = &core.UpdatableSpec{}
+			}
+			quit := make(chan bool)
+			var readers sync.WaitGroup
+			for r := 0; r < 3; r++ {
+				readers.Add(1)
+				go func() {
+					defer readers.Done()
+					for {
+						select {
+						case <-quit:
+							return
+						default:
+							u0.Spec()
+							runtime.Gosched()
+						}
+					}
+				}()
+			}
+			runtime.Gosched()
+			u0.SetSpec(specA)
+			for i := 0; i < 50; i++ {
+				if u0.Spec() != specA {
+					firstLost = true
+				}
+				runtime.Gosched()
+			}
+			close(quit)
+			readers.Wait()
+		}
 		u := core.NewUpdatableSpec(specA)
 		var stop int32
 		var swaps int64
@@ -523,6 +559,11 @@ func specswapComponent(g *G, n int, opts map[string]string) *Out {
 		wg.Wait()
 		atomic.StoreInt32(&stop, 1)
 		writers.Wait()
+		if firstLost && len(c.Walks) > 0 {
+			// reported as a processing call that saw neither version
+			c.Walks[0].conc = append(c.Walks[0].conc, &walkRun{Outcome: "panic", Err: "the first SetSpec of a Specter that held no specification was lost: Spec() did not return the installed version afterwards"})
+			o.count("first-installation-lost")
+		}
 		if atomic.SwapInt32(&reviseLate, 0) == 1 && len(c.Walks) > 0 {
 			// reported as a processing call that saw neither version
 			c.Walks[0].conc = append(c.Walks[0].conc, &walkRun{Outcome: "panic", Err: "a revision made from Spec.Copy compiled without error and then reported an uncompiled action"})
